@@ -16,6 +16,8 @@ var libPure = map[string]bool{
 	"(image.Rectangle).Size": true, "(image.Rectangle).Dx": true, "(image.Rectangle).Dy": true,
 	"fmt.Fprintf": true, "fmt.Fprint": true, "fmt.Fprintln": true, "(io.Writer).Write": true,
 	"(*bytes.Buffer).Write": true, "(*bytes.Buffer).WriteString": true, "(*strings.Builder).WriteString": true, "(*bytes.Buffer).WriteByte": true,
+	"fmt.Println": true, "fmt.Printf": true, "fmt.Print": true, "log.Println": true, "log.Printf": true,
+	"(*bytes.Buffer).Bytes": true, "(*bytes.Buffer).String": true, "(*bytes.Buffer).Len": true, "(*strings.Builder).String": true, "(*strings.Builder).Len": true,
 	"fmt.Errorf": true, "fmt.Sprintf": true, "fmt.Sprint": true, "fmt.Sprintln": true, "errors.New": true,
 	"github.com/tdewolff/parse/v2/strconv.ParseFloat": true, "github.com/tdewolff/parse/v2/strconv.ParseInt": true,
 	"github.com/tdewolff/parse/v2/strconv.ParseUint": true,
@@ -111,6 +113,16 @@ func (x *Exec) callLibrary(s *State, fn *types.Func, recv *Term, args []*Term, c
 		e := x.freshVar("err", IfaceSort)
 		s.assume(Not(Eq(Field(e, 0), IntLit(0))))
 		return []*Term{e}, true
+	case "fmt.Println", "fmt.Printf", "fmt.Print", "log.Println", "log.Printf":
+		libUsed[full] = "writes to the process's standard streams only: nothing reachable from the verified state"
+		return x.havocResults(s, call), true
+	case "(*bytes.Buffer).Bytes", "(*bytes.Buffer).String", "(*bytes.Buffer).Len", "(*strings.Builder).String", "(*strings.Builder).Len":
+		libUsed[full] = "read-only query of the buffer: returns some value, writes nothing"
+		v := x.havocResults(s, call)
+		if len(v) == 1 && v[0].S == SInt {
+			s.assume(Cmp("<=", IntLit(0), v[0]))
+		}
+		return v, true
 	case "fmt.Sprintf", "fmt.Sprint", "fmt.Sprintln":
 		libUsed[full] = "returns some string"
 		return x.havocResults(s, call), true
